@@ -53,13 +53,13 @@ FR = ["Foo v. Bar, 1 U.S. 1 (1999)", "2 F.2d 3, 5", "Id. at 5", "Foo, supra, at 
       "supra,§,", "1 CCH Unemployment Ins. Rep. 1", "550 U.S., at 556", "3 Cranch 137"]
 PROBES = ["See Pub. L. No. 94-553 §§ 1-2 and more.", "Halper v. Taney, 1999; Taney ___ (1999)",
           "1 CCH Unemployment Ins. Rep. 1\n1 CCH Unemployment Ins. Rep. 1\n", "“1 U.S. 1”", "é1 U.S. 1", "1 U.S. 1é", "see—Id. at 5—ok", "1 U.S. 1 “ 2 F.2d 3", "x § 5 y", "¶12,345",
-          "585 U.S. ___ (2018)", "585 U.S. __a", "585 U.S. ___3 and", "Pub. L. 111-148 was enacted", "see §5x and"]
+          "See 1 U.S. (1 Dall§) 5 and", "585 U.S. ___ (2018)", "585 U.S. __a", "585 U.S. ___3 and", "Pub. L. 111-148 was enacted", "see §5x and"]
 
 
 def plan(tier, seed):
     n = SHARDS[tier]
     specs = [dict(i=i, nshards=n, ndoc=NDOC[tier], seed=seed * 1000 + i, part="compare", probes=(i == 0),
-                  cover=(6 if tier == "quick" else 60))
+                  cover=(24 if tier == "quick" else 80))
              for i in range(n)]
     specs += [dict(i=i, nshards=n, seed=seed * 1000 + 100 + i, part="faults", tier=tier) for i in range(n)]
     specs += [dict(i=i, nshards=4, seed=seed * 1000 + 200 + i, part="fullfaults", tier=tier) for i in range(4)]
@@ -75,6 +75,8 @@ def classify(v):
         o = v.get("observed") or {}
         if o.get("pattern_has_multibyte_in_class") and "§" in ((o.get("token") or {}).get("data") or ""):
             return "multibyte-char-in-character-class"
+        if o.get("any_character_element_took_multibyte"):
+            return "any-character-element-takes-multibyte-character"
         if o.get("hyperscan_has_longer_match_with_same_end"):
             return "leftmost-start-reporting"
         if o.get("touches_multibyte"):
@@ -94,8 +96,15 @@ def edge_fragment(rng):
     if k < 0.5:
         return (f"{gen.num(rng)} {gen.rep(rng)} {'_' * rng.randint(1, 4)}"
                 + rng.choice(["", " (2018)", "a", "3", "_x", ")", ";", " ", "_ ", ", 5"]))
-    if k < 0.7:
+    if k < 0.62:
         return rng.choice(["Pub. L. 111-148 was", "Pub. L. No. 94-553  and", "§5x", "§§ 5x-6", "x§5", "Id.,at 5", "supra,at"])
+    if k < 0.8:
+        # a keyword with runs of punctuation (ASCII and multi-byte, 0-6 characters) glued to both sides: bounds
+        # counted in characters by one engine and in bytes by the other differ exactly here
+        marks = ["\u201c", "\u201d", "\u2019", "\u2014", "\u2026", "(", ")", ".", ",", ";", "\"", "'", "*", "-"]
+        run = lambda: "".join(rng.choice(marks) for _ in range(rng.randint(0, 6)))  # noqa
+        kw = rng.choice(["supra", "see", "Id.", "denied", "citing", "v.", "affirmed", "ibid.", "See also"])
+        return f"Foo, {run()}{kw}{run()} at 5"
     return gen.member(rng) + rng.choice(["_", "__ ", " _", "a", "1", " 1", ""])
 
 
@@ -192,10 +201,10 @@ def multibyte_class_pattern(text, t, by_type):
 
 
 def wildcard_took_multibyte(text, t, by_type):
-    """Was a non-ASCII character inside this reference token matched by a wildcard or a negated class of its
-    pattern ('Dall.' with an unescaped dot taking '§')? Then replacing it by another non-ASCII character of
-    a different byte length leaves the match intact. For a byte-oriented engine such a wildcard takes ONE
-    byte: the engines' classes do not coincide on this token - outside the property's domain."""
+    """Mechanism of an open known finding: a non-ASCII character inside this reference token was matched by an
+    "any character" element of its pattern ('Dall.' with an unescaped dot in a reporters-db alternation
+    taking '§'). Then replacing it by another non-ASCII character of a different byte length, or by an
+    ASCII letter, leaves the match intact. A byte-oriented engine lets such an element take ONE byte."""
     idx = [i for i in range(t.start, t.end) if ord(text[i]) > 127]
     if not idx:
         return False
@@ -204,9 +213,11 @@ def wildcard_took_multibyte(text, t, by_type):
         if body is None or not body.fullmatch(text, t.start, t.end):
             continue
         for i in idx:
-            other = "\u20ac" if text[i] != "\u20ac" else "\u00e9"
-            t2 = text[:i] + other + text[i + 1:]
-            if body.fullmatch(t2, t.start, t.end):
+            other = "\u20ac" if text[i] != "\u20ac" else "\u2030"
+            # ... and by an ASCII letter: a dot (or a class like [^)]) takes anything, a punctuation class
+            # such as [^\sa-zA-Z0-9] does not take a letter and is no "any character" element
+            if body.fullmatch(text[:i] + other + text[i + 1:], t.start, t.end) \
+                    and body.fullmatch(text[:i] + "a" + text[i + 1:], t.start, t.end):
                 return True
     return False
 
@@ -241,14 +252,12 @@ def compare_doc(text, rec, ref, hs, by_type):
             # classes do not coincide on this text for this pattern - outside the property's domain
             rec.count("candidate_outside_domain_skipped")
             continue
-        if k not in H and wildcard_took_multibyte(text, x, by_type):
-            rec.count("candidate_outside_domain_skipped")
-            continue
         if k not in H:
             twin = any(type(y) is type(x) and y.end == x.end and y.start < x.start
                        and str(y) == text[y.start:x.end] for y in H.values())
             rec.violation("C14.missing_in_hyperscan", case,
                           observed=dict(token=M.ser_token(x), touches_multibyte=touches,
+                                        any_character_element_took_multibyte=wildcard_took_multibyte(text, x, by_type),
                                         hyperscan_has_longer_match_with_same_end=twin,
                                         pattern_has_multibyte_in_class=multibyte_class_pattern(text, x, by_type),
                                         context=text[max(0, x.start - 3):x.end + 3]))
@@ -313,13 +322,13 @@ def run_compare(spec, rec):
         # multi-byte characters of the patterns (section and paragraph signs) are produced.
         # Members come with branch coverage of the pattern (every alternative at least once).
         try:
-            pool = list(cover(e.regex, rng, e.flags, max_samples=spec.get("cover", 6), ascii_only=True))
+            pool = list(cover(e.regex, rng, e.flags, max_samples=spec.get("cover", 24), ascii_only=True))
         except Exception:
             pool = []
         for s in pool:
             if not gen.ascii_ws_domain(s) or not e.compiled_regex.search(s):
                 continue
-            s = rng.choice(["", "See "]) + s + rng.choice(["", " and so on."])
+            s = rng.choice(["", "Compare "]) + s + rng.choice(["", " and so on."])   # (not "See": a stop-word token would take the blank the member needs as its boundary)
             want = {tkey(e.get_token(m)): e.get_token(m) for m in e.get_matches(s)}
             try:
                 have = {tkey(x) for x in hs.extract_tokens(s)}
